@@ -20,8 +20,14 @@ namespace NeoModel.Vm
 /-- `stackitem.MaxBigIntegerSizeBits` = 256: a signed 256-bit integer. -/
 def inRange (n : Int) : Bool := decide (-(2:Int)^255 ≤ n) && decide (n < (2:Int)^255)
 
-/-- the range check at every integer construction: `none` = FAULT (errTooBigInteger). -/
-def checkInt (n : Int) : Option Int := if inRange n then some n else none
+/-- a NeoVM Integer: an unbounded `Int` *together with the evidence that it passed the 256-bit range
+check*. Integer stack items carry this type, so the type checker enforces that no instruction can
+put an unchecked integer on a stack, in a slot or into a compound object (`range_closed`). -/
+abbrev Int256 := { n : Int // inRange n = true }
+
+/-- the range check at every integer construction: `none` = FAULT (errTooBigInteger). The only way
+to make an `Int256` from a computed value. -/
+def checkInt (n : Int) : Option Int256 := if h : inRange n = true then some ⟨n, h⟩ else none
 
 /-! ### Integer ↔ bytes: minimal two's complement, little endian (bigint.ToBytes / FromBytes) -/
 
